@@ -21,7 +21,7 @@ def main(tier, seed):
     return driver.run_property(
         PID, tier, seed, c_part=(cinc.R, cinc.C34_FUNCS), py_items=pyinc.items(), concretise=concretise, quick_budget=120, more=more,
         layout_types=('PyObject', 'PyVarObject', 'PyTupleObject', 'FFIObject', 'builder_c_t', 'struct _cffi_struct_union_s',
-                      'struct _cffi_type_context_s'),
+                      'struct _cffi_type_context_s', 'LibObject'),
         trusted=["Python side: Parser._declare and Parser._add_constants are decided by an exhaustive case split over how the "
                  "new entry relates to the existing one; Parser.include is run on an included parser that declares one "
                  "entry of every kind word the real cparser.py ever passes to _declare (collected from its AST on every "
@@ -41,7 +41,11 @@ def main(tier, seed):
                  "make_included_tuples: the import machinery (PyImport_ImportModule, PyObject_GetAttrString of \"ffi\" / "
                  "\"lib\") is recorded; the NULL-terminated name list is kept as whole words in a heap of its own (A-SEP); "
                  "'none of the n names is NULL' is a quantified fact for callers, the body uses named instances",
-                 "not under contract: lib_build_and_cache_attr's delegation loop over included libs, "
-                 "ffi_fetch_int_constant, the recompiler's emission of _CFFI_F_EXTERNAL"],
+                 "lib_build_and_cache_attr: only ONE iteration of its delegation loop over the included libs is under "
+                 "contract (loop-body contract: every local is arbitrary at the loop head); the recursive call and "
+                 "ffi_fetch_int_constant are recorded; PyDict_GetItem is a function of (dict, key); what surrounds the "
+                 "loop (own globals, the `found:` caching) is not verified here",
+                 "not under contract: ffi_fetch_int_constant, the recompiler's emission of _CFFI_F_EXTERNAL",
+                 "layout of LibObject / FFIObject is cross-checked with gcc"],
         technique="contract-based deductive verification: Python functions by exhaustive case contracts (pyvc), the C "
                   "lookup through include chains over a trace of recorded realizations (cvc)")
